@@ -26,6 +26,10 @@ inductive Value where
   | map  (m : List (Atom × Atom))
   deriving DecidableEq, Repr, Inhabited
 
+abbrev UUID := String
+/-- a row as a model struct holds it: column -> native value -/
+abbrev Row := List (String × Value)
+
 /-- Outcome of a modelled entry point: the Go function returns normally,
     returns an error (class name), or panics. -/
 inductive Outcome (α : Type) where
